@@ -565,9 +565,21 @@ class HistMonitor:
                 if resident and words[a] != lg:
                     self.fail("C12", "wb-resident-stale", "%s: resident word %#x = %#x, logical %#x" % (where, a, words[a], lg))
                     return
-        if self.acct and not wt:
-            # dirty evictions actually observed: count via reference evictions of written blocks
-            pass
+        # "The memory table shown to the user is therefore always current under write-through and may lag under
+        # write-back only for resident blocks": the table of the memory SYSTEM (what the UI shows), unsigned column
+        try:
+            tab = {int(a_): int(t_[1]) for a_, t_ in self.m.wordwise_repr().items()}
+        except Exception as e:
+            self.fail("C12", "memory-table-error", "%s: wordwise_repr() of the memory system raised %r" % (where, e))
+            return
+        self.res.count("memory_tables_vs_logical")
+        for a in self.universe:
+            if a & 3:
+                continue
+            lg = self.flat.read(a, 4)
+            if (wt or a not in words) and tab.get(a, 0) != lg:
+                self.fail("C12", "memory-table-stale", "%s: the memory table shows %#x for word %#x, logical contents %#x (%s)" % (where, tab.get(a, 0), a, lg, "write-through" if wt else "write-back, block not resident"))
+                return
 
 
 def run_hist(case, res, prop):
